@@ -178,15 +178,25 @@ def massless_needs_wigner(reaction):
 def evaluate(model, dpd, events, couplings):
     """Two stages (never substitute the big angle expressions into the intensity: SymPy's Abs/
     signsimp then takes minutes): momenta -> kinematic variables -> intensity."""
+    expr = model.expression.doit()
+    syms = sorted(expr.free_symbols, key=str)
+    kvs = model.kinematic_variables
+    # only the kinematic variables the intensity really uses (Wigner angles of spin-0 particles
+    # drop out with WignerD(0, ...) = 1 and are by far the most expensive ones), transitively
+    todo, stack = {}, [x for x in syms if x in kvs]
+    while stack:
+        k = stack.pop()
+        if k not in todo:
+            todo[k] = kvs[k]
+            stack += [x for x in kvs[k].free_symbols if x in kvs]
     known = {}
-    for s in {x for v in model.kinematic_variables.values() for x in v.free_symbols}:
+    for s in {x for v in todo.values() for x in v.free_symbols}:
         n = str(s)
         if n[0] == "p" and n[1:].isdigit():
             i = int(n[1:]) - (1 if dpd else 0)
             known[s] = np.array([ev[i] for ev in events])
     for s, d in model.parameter_defaults.items():
         known[s] = couplings.get(str(s), d)
-    todo = dict(model.kinematic_variables)
     while todo:
         ready = [k for k, v in todo.items() if all(x in known for x in v.free_symbols)]
         if not ready:
@@ -197,8 +207,6 @@ def evaluate(model, dpd, events, couplings):
         for k, v in zip(ready, vals):
             known[k] = np.broadcast_to(np.asarray(v), (len(events),)).copy()
             del todo[k]
-    expr = model.expression.doit()
-    syms = sorted(expr.free_symbols, key=str)
     missing = [str(x) for x in syms if x not in known]
     if missing:
         raise KeyError(f"symbols {missing[:5]} are neither kinematic variables nor parameters")
@@ -257,6 +265,20 @@ def run_reaction(task):
             sig = ("axisangle" if al == "axisangle" else "dpd" if al.startswith("dpd") else "noalign") + "_formulate_raises"
             res["failures"].append({"signature": sig, "what": f"{label}: formulate() with alignment {al} raised {type(e).__name__}: {str(e)[:150]}",
                                     "case": {"kind": "model", "label": label, "alignment": al, "seed": seed, "nev": nev}})
+    # "formulating AND evaluating succeeds": every free symbol of the intensity is a parameter or a
+    # kinematic variable (cheap, before any lambdify)
+    for al, (model, _) in list(models.items()):
+        res["evaluations"] += 1
+        allowed = set(model.parameter_defaults) | set(model.kinematic_variables)
+        stray = sorted(str(x) for x in model.expression.free_symbols if x not in allowed)
+        if stray:
+            res["failures"].append({
+                "signature": "aligned_model_not_evaluable",
+                "what": f"{label}: intensity formulated with alignment {al} contains symbols {stray[:4]} that are neither "
+                        "parameters nor kinematic variables; the model cannot be evaluated",
+                "case": {"kind": "model", "label": label, "alignment": al, "seed": seed, "nev": nev}})
+            if al != "none":
+                del models[al]
     if "none" not in models or not numeric_ok or nev == 0:
         if not numeric_ok:
             kind("numeric_skipped_massless_below_root")
@@ -332,6 +354,7 @@ QUICK_TASKS = [
     ("synth_2b_h_1_h", ("axisangle",)),
     ("synth_3b_1_h_nu", ("axisangle", "dpd2")),      # massless spin 1/2 spectator
     ("synth_3b_h_1_h00", ("axisangle", "dpd3")),
+    ("synth_4b_cascade_h_h", ("axisangle",)),        # 4-body cascade, spin 1/2 on the production node
 ]
 THOROUGH_CAN = ["lc_pkpi_can", "jpsi_gpipi_can", "etac_ll_can", "jpsi_ppbar_can"]
 
